@@ -103,8 +103,11 @@ def symbolic_run(scn: Scenario, **cfg) -> SymRun:
     paths, escaped = [], None
     import signal
 
+    armed = [True]
+
     def _alarm(signum, frame):
-        raise TimeoutError("symbolic run exceeded the harness watchdog")
+        if armed[0]:
+            raise TimeoutError("symbolic run exceeded the harness watchdog")
 
     old_handler = signal.signal(signal.SIGALRM, _alarm)
     signal.setitimer(signal.ITIMER_REAL, WATCHDOG_S, 0.5)   # repeating: halmos may swallow the first exception
@@ -126,8 +129,10 @@ def symbolic_run(scn: Scenario, **cfg) -> SymRun:
                 kind = "other:" + type(err).__name__
             paths.append(PathRes(kind, out.data, list(e.path.conditions), e, err))
     except BaseException as exc:  # noqa: BLE001
+        armed[0] = False   # the repeating timer must not fire again between here and the disarm below
         escaped = f"{type(exc).__name__}: {exc}"
     finally:
+        armed[0] = False
         signal.setitimer(signal.ITIMER_REAL, 0)
         signal.signal(signal.SIGALRM, old_handler)
         for lg in loggers:
